@@ -25,6 +25,7 @@ import YataProofs.Indicators.CMFRun
 import YataProofs.Indicators.StochRun
 import YataProofs.Indicators.RSIRun
 import YataProofs.Indicators.BBRun
+import YataProofs.Indicators.KeltnerRun
 import YataProofs.Numeric.TSIRange
 import YataProofs.Numeric.MeanAbsDev
 namespace Yata.C12
@@ -199,6 +200,14 @@ theorem C12_bollinger_run {P : Nat} (c : BBCfg) (k0 : Candle ℚ) (hv : BB.valid
           (w.map fun x => (x - Spec.mean c.avg_size w) * (x - Spec.mean c.avg_size w)).sum / ((c.avg_size - 1 : Nat) : ℚ)) ∧
         0 ≤ (outs[i]).2 := BB.run_spec c k0 hv cs
 
+/-- Keltner channel over whole streams (candles with low ≤ high), every accepted configuration of the middle average: no step
+    panics and the lower band is never above the upper band -/
+theorem C12_keltner_run {P : Nat} (c : KeltnerCfg) (k0 : Candle ℚ) (hv : Keltner.validate c = true)
+    (h1 : validLen P c.ma.kind c.ma.length) (hp : c.ma.length ≤ P - 1) (hk0 : k0.low ≤ k0.high)
+    (cs : List (Candle ℚ)) (hcs : ∀ k ∈ cs, k.low ≤ k.high) :
+    ∃ s0 outs s', Keltner.init P c k0 = .ok s0 ∧ runM Keltner.vals s0 cs = .ok (outs, s') ∧ outs.length = cs.length ∧
+      ∀ o ∈ outs, ∃ src up lo, o.map VExp.value = [src, up, lo] ∧ lo ≤ up := Keltner.run_spec c k0 hv h1 hp hk0 cs hcs
+
 theorem C12_tr_nonneg (c : Candle ℚ) (p : ℚ) (h : c.low ≤ c.high) : 0 ≤ c.trClose p := tr_nonneg c p h
 
 theorem C12_clv_range (c : Candle ℚ) (h1 : c.low ≤ c.close) (h2 : c.close ≤ c.high) : -1 ≤ c.clv ∧ c.clv ≤ 1 :=
@@ -239,3 +248,4 @@ end Yata.C12
 #print axioms Yata.C12.C12_every_smooth_kind_hull
 #print axioms Yata.C12.C12_rsi_run
 #print axioms Yata.C12.C12_bollinger_run
+#print axioms Yata.C12.C12_keltner_run
